@@ -83,6 +83,10 @@ fn main() {
             }
             std::process::exit(checks::replay(&args[2]));
         }
+        "deltafind" => {
+            let n = args.get(2).and_then(|x| x.parse().ok()).unwrap_or(1000);
+            e2_oracles::deltafind(n);
+        }
         "crosscheckfind" => {
             let n = args.get(2).and_then(|x| x.parse().ok()).unwrap_or(1000);
             e2_oracles::crosscheckfind(n);
